@@ -11,7 +11,7 @@ import re._constants as sre_c
 from .. import astutil as A
 from ..fa import FA
 from ..loader import AnalysisError
-from .fresh import flow_nodes, attr_writes, at_of, reaches_avoiding, alternatives
+from .fresh import flow_nodes, attr_writes, at_of, reaches_avoiding, alternatives, flag_conditions, class_units as _listing_units
 
 FR = "reference.FunctionReference"
 
@@ -56,12 +56,33 @@ def _flat_parts(e):
 
 
 def _prefix_before_first(fa, call, sep):
-    """Is the cut call used to take what PRECEDES the first `sep`:  s[:s.find(sep)],  s.partition(sep)[0],
+    """Is the cut call used to take what PRECEDES the first `sep`:  s[:s.find(sep)] — directly or through a local
+    (`cut = s.find(sep)` ... `s[:cut]`, the local otherwise only compared) —,  s.partition(sep)[0],
     s.split(sep[, n])[0],  head, _, _ = s.partition(sep) ?"""
     p = fa.pm.get(call)
     nm = call.func.attr
+
+    def upper_bound_of_prefix(node, par):
+        return isinstance(par, ast.Slice) and par.upper is node and (par.lower is None or (isinstance(par.lower, ast.Constant) and par.lower.value == 0)) and par.step is None
+
     if nm in ("find", "index"):
-        return isinstance(p, ast.Slice) and p.upper is call and (p.lower is None or (isinstance(p.lower, ast.Constant) and p.lower.value == 0)) and p.step is None
+        if upper_bound_of_prefix(call, p):
+            return True
+        if isinstance(p, ast.Assign) and p.value is call and len(p.targets) == 1 and isinstance(p.targets[0], ast.Name):
+            var = p.targets[0].id
+            stores = [n for n in A.walk_body(fa.node) if isinstance(n, ast.Name) and n.id == var and isinstance(n.ctx, ast.Store)]
+            if len(stores) != 1:
+                return False
+            cuts = 0
+            for n in A.walk_body(fa.node):
+                if isinstance(n, ast.Name) and n.id == var and isinstance(n.ctx, ast.Load):
+                    par = fa.pm.get(n)
+                    if upper_bound_of_prefix(n, par):
+                        cuts += 1
+                    elif not isinstance(par, ast.Compare):
+                        return False  # used for something else than the prefix cut and tests of its presence
+            return cuts > 0
+        return False
     if nm in ("partition", "split"):
         if isinstance(p, ast.Subscript) and p.value is call and isinstance(p.slice, ast.Constant) and p.slice.value == 0:
             return True
@@ -72,7 +93,31 @@ def _prefix_before_first(fa, call, sep):
             rest = {e.id for e in p.targets[0].elts[1:] if isinstance(e, ast.Name)}
             used = {n.id for n in A.walk_body(fa.node) if isinstance(n, ast.Name) and isinstance(n.ctx, ast.Load)}
             return head in used and not (rest & used - {head})
+        if isinstance(p, ast.Assign) and p.value is call and len(p.targets) == 1 and isinstance(p.targets[0], ast.Name):
+            # parts = s.split(sep, 1) ... parts[0] only
+            var = p.targets[0].id
+            loads = [n for n in A.walk_body(fa.node) if isinstance(n, ast.Name) and n.id == var and isinstance(n.ctx, ast.Load)]
+            return bool(loads) and all(isinstance(fa.pm.get(n), ast.Subscript) and fa.pm.get(n).value is n and isinstance(fa.pm.get(n).slice, ast.Constant)
+                                       and fa.pm.get(n).slice.value == 0 for n in loads)
     return False
+
+
+def _helper_units(ck, root, limit=8):
+    """A function with the helpers it was split into: its nested functions and the module-level functions of its own
+    module it refers to (a nested helper hoisted out, under whatever name), transitively.  -> [FuncInfo]"""
+    out, todo = [], [root]
+    while todo and len(out) < limit:
+        fi = todo.pop(0)
+        if any(fi is x for x in out):
+            continue
+        out.append(fi)
+        todo += list(fi.nested.values())
+        for n in A.walk_body(fi.node):
+            if isinstance(n, ast.Name) and isinstance(n.ctx, ast.Load) and n.id in fi.module.functions:
+                tgt = fi.module.functions[n.id]
+                if not any(tgt is x for x in out + todo):
+                    todo.append(tgt)
+    return out
 
 
 def _group_class(tree, gid):
@@ -127,13 +172,22 @@ def _top_shape(tree, groups):
         return "".join(chr(av) for (op, av) in s if op is sre_c.LITERAL)
     try:
         (o1, a1), (o2, a2), (o3, a3), (o4, a4), (o5, a5) = seq
+        named = set(groups.values())
+
+        def optional_items(a):
+            """The items of an optional part: those of its wrapping group (capturing or not — a non-capturing group
+            leaves no node of its own), the wrapper not being one of the four named groups."""
+            items = list(a[2])
+            if len(items) == 1 and items[0][0] is sre_c.SUBPATTERN and items[0][1][0] not in named:
+                items = list(items[0][1][3])
+            return items
+
         if o1 is not sre_c.MAX_REPEAT or a1[0] != 0 or a1[1] != 1:
             return None
-        outer = list(a1[2])
-        if len(outer) != 1 or outer[0][0] is not sre_c.SUBPATTERN:
-            return None
-        inner = list(outer[0][1][3])
+        inner = optional_items(a1)
         if inner[0][0] is not sre_c.SUBPATTERN or inner[0][1][0] != groups["cluster"]:
+            return None
+        if any(op is not sre_c.LITERAL for (op, av) in inner[1:]):
             return None
         d_cluster = lits(inner[1:])
         if o2 is not sre_c.SUBPATTERN or a2[0] != groups["module"]:
@@ -145,7 +199,7 @@ def _top_shape(tree, groups):
             return None
         if o5 is not sre_c.MAX_REPEAT or a5[0] != 0 or a5[1] != 1:
             return None
-        tail = list(list(a5[2])[0][1][3])
+        tail = optional_items(a5)
         d_version = lits(tail[:1])
         if tail[1][0] is not sre_c.SUBPATTERN or tail[1][1][0] != groups["version"] or len(tail) != 2:
             return None
@@ -204,33 +258,61 @@ def _can_fail(test, env):
 
 
 def _check_asserts(ck, R, fi, env, label):
+    """Every assert of the function, under the nullability bindings `env` of its parameters: can it be reached and
+    fail?  Decided per path class: the branch literals on the way to the assert (nesting, elif chains, guard clauses
+    alike) refine what is known about the parameters — `x is None` taken true makes x None on that path, a literal
+    that contradicts the bindings makes the path infeasible."""
     fa = FA(ck, fi)
     n = 0
     for st in fa.stmts(ast.Assert):
-        # reachability: an enclosing branch that is definitely not taken under env makes it moot
-        reachable = True
-        node = st
-        while node is not None:
-            p = fa.pm.get(node)
-            if isinstance(p, ast.If):
-                v = _ev(p.test, env)
-                in_body = any(node is s for s in p.body)
-                if (v is False and in_body) or (v is True and not in_body):
-                    reachable = False
-            node = p if not isinstance(p, (ast.FunctionDef,)) else None
-        if not reachable:
+        if not fa.nodes(st):
             continue
+        conds = fa.conditions(st)
+        if conds is None:
+            conds = {frozenset()}
+        verdict = None
+        for conj in sorted(conds, key=lambda c: sorted(c)):
+            env_c = dict(env)
+            feasible = True
+            for (text, pol) in sorted(conj):
+                try:
+                    t = ast.parse(text, mode="eval").body
+                except SyntaxError:
+                    continue
+                if isinstance(t, ast.Compare) and len(t.ops) == 1 and isinstance(t.ops[0], ast.Is) and A.is_none(t.comparators[0]) \
+                        and isinstance(t.left, ast.Name) and t.left.id in env_c:
+                    want = NONE if pol else NOTNONE
+                    have = env_c[t.left.id]
+                    if have == MAYBE:
+                        env_c[t.left.id] = want
+                    elif have != want:
+                        feasible = False
+                        break
+                    continue
+                v = _ev(t, env_c)
+                if v is not None and v != pol:
+                    feasible = False
+                    break
+            if not feasible:
+                continue
+            fails, how = _can_fail(st.test, env_c)
+            if verdict is None or fails:
+                verdict = (fails, how)
+            if fails:
+                break
+        if verdict is None:
+            continue  # not reachable under these bindings
         n += 1
-        fails, how = _can_fail(st.test, env)
+        fails, how = verdict
         ck.ob(R, fa.key(st, label), not fails, "assert cannot fail on the metadata read path" if not fails else
               "`%s` fails for a stored name with %s: reading stored metadata raises AssertionError instead of "
               "reporting an external reference" % (A.short(st.test, 70), how), fa.where(st))
     return n
 
 
-def _regex_parser(ck, R1, pq, ms, anchor=None):
+def _regex_parser(ck, R1, pq, ms, anchor=None, flags=0):
     pat = A.const_str(ms[0].args[0])
-    tree = sre_parse.parse(pat)
+    tree = sre_parse.parse(pat, flags)
     groups = dict(tree.state.groupdict)
     for g in ("cluster", "module", "function", "version"):
         if g not in groups:
@@ -265,6 +347,16 @@ def _regex_parser(ck, R1, pq, ms, anchor=None):
                 if g is None or A.const_str(g) != A.const_str(k) or not (".match(" in A.norm(val) or ".fullmatch(" in A.norm(val)):
                     return False
             return True
+        if isinstance(v, ast.DictComp) and len(v.generators) == 1 and not v.generators[0].ifs and isinstance(v.generators[0].target, ast.Name) \
+                and isinstance(v.key, ast.Name) and v.key.id == v.generators[0].target.id:
+            # {name: match.group(name) for name in ('cluster', 'module', 'function', 'version')}
+            var = v.key.id
+            names = v.generators[0].iter
+            elts = names.elts if isinstance(names, (ast.Tuple, ast.List, ast.Set)) else None
+            val = v.value
+            g = val.args[0] if isinstance(val, ast.Call) and A.call_attr(val) == "group" and len(val.args) == 1 else val.slice if isinstance(val, ast.Subscript) else None
+            return elts is not None and sorted(A.const_str(x) or "?" for x in elts) == ["cluster", "function", "module", "version"] \
+                and isinstance(g, ast.Name) and g.id == var and (".match(" in A.norm(val) or ".fullmatch(" in A.norm(val))
         return False
     okg = bool(rets) and all(r.value is not None and _is_groups(r) for r in rets)
     ck.ob(R1, pq.key(None, "groupdict"), okg, "the parts are the named groups" if okg else "parse_qualified_name does not return match.groupdict()", pq.where())
@@ -467,7 +559,19 @@ def check_single_cluster_prefix(ck, R2, ini, d_cluster, d_module):
         conds = ini.conditions(at)
         if conds is None:
             raise AnalysisError("%s: too many paths to `%s`" % (ini.qual, A.short(node, 60)))
-        ok = bool(here & absent) or (bool(conds) and all(c & absent for c in conds))
+        def establishes(c):
+            """Does the conjunction say the name carries no cluster delimiter — by a literal of its own, or by a flag
+            (`needs_prefix`) that can only come out this way where such a test was passed?"""
+            if c & absent:
+                return True
+            for (t_, pol_) in c:
+                if t_.isidentifier():
+                    dnf = flag_conditions(ini, t_, pol_)
+                    if dnf and all(d_ & absent for d_ in dnf):
+                        return True
+            return False
+
+        ok = bool(here & absent) or (bool(conds) and all(establishes(c) for c in conds))
         if not ok:
             # the prefix itself may have been prepared only where the name has no delimiter yet
             ok = True
@@ -475,7 +579,7 @@ def check_single_cluster_prefix(ck, R2, ini, d_cluster, d_module):
                 if set(lits) & absent:
                     continue
                 cd = ini.conditions(a_) if a_ != at else conds
-                if cd and all(c & absent for c in cd):
+                if cd and all(establishes(c) for c in cd):
                     continue
                 ok = False
         if not ok:
@@ -517,17 +621,65 @@ def check_cluster_name_validated(ck, R2, shape):
           "stored under it, and every later read of those entries fails to parse the name (or parses it into other parts)" % sorted(need), fa.where())
 
 
+def _handler_types(fa, h):
+    """Bare names of the exception classes a handler takes ([None] for a bare `except:`): a tuple spelled in place,
+    or held by a local / module-level / class-level constant (`_LOOKUP_FAILURES = (ModuleNotFoundError, ...)`),
+    tuples nested or concatenated."""
+    from .fresh import static_value
+    if h.type is None:
+        return [None]
+    at = fa.nodes(h)[0] if fa.nodes(h) else None
+    if at is None:
+        ids = [i for st in h.body for i in fa.nodes(st)]
+        at = ids[0] if ids else None
+    out = []
+
+    def rec(t, depth=0):
+        if depth > 6:
+            out.append(A.norm(t))
+            return
+        if isinstance(t, (ast.Tuple, ast.List)):
+            for x in t.elts:
+                rec(x.value if isinstance(x, ast.Starred) else x, depth + 1)
+            return
+        if isinstance(t, ast.BinOp) and isinstance(t.op, ast.Add):
+            rec(t.left, depth + 1)
+            rec(t.right, depth + 1)
+            return
+        if isinstance(t, (ast.Name, ast.Attribute)):
+            v = None
+            if isinstance(t, ast.Name) and fa.df.is_local(t.id) and at is not None:
+                # (the handler's cfg node is not where the name was read: look the binding up among the function's plain assignments)
+                vals = [st.value for st in fa.stmts(ast.Assign) if any(isinstance(x, ast.Name) and x.id == t.id for x in st.targets)]
+                v = vals[0] if len(vals) == 1 else None
+            else:
+                v = static_value(fa, t, at)
+                if v is t:
+                    v = None
+            if isinstance(v, (ast.Tuple, ast.List, ast.BinOp)):
+                rec(v, depth + 1)
+                return
+        out.append(A.norm(t).split(".")[-1])
+
+    rec(h.type)
+    return out
+
+
 def check_stub_from_stored_state(ck, R3):
     """The external stand-in for a function that cannot be resolved at the stored version is built
     from what was stored (the parsed name and the decoder's arguments) and from nothing that the
     *current* code says: the current definition may have other parameters than the stored call."""
     fq = FA(ck, FR + ".from_qualified_name")
     stubs = fq.calls("UnboundExternalMementoFunction")
+    from .c11 import _bound_args, _ctor_params
+    stub_params = _ctor_params(ck, "external.UnboundExternalMementoFunction")
     for call in stubs:
-        for k in call.keywords:
-            if k.arg is None:
-                continue
-            d = fq.deps(k.value)
+        bound = _bound_args(fq, call, stub_params) if fq.nodes(call) else None
+        if bound is None:
+            bound = {k.arg: (k.value, None) for k in call.keywords if k.arg is not None}
+        for (arg_, (value_, at_)) in sorted(bound.items()):
+            k = ast.keyword(arg=arg_, value=value_)
+            d = fq.deps(k.value) if at_ is None else fq.df.deps(k.value, at_)
             live = sorted(x for x in d if x in ("call:import_module", "call:signature", "call:getattr", "call:_find_function", "call:getfullargspec")
                           or x.startswith("getattr:fn") or x.startswith("getattr:__code__") or x.startswith("getattr:src_fn"))
             ck.ob(R3, fq.key(call, "stub-from-stored:" + k.arg), not live,
@@ -546,7 +698,8 @@ def check_unresolvable_is_absent(ck, R3):
     gm = FA(ck, "storage_base.DataSourceMetadataSource.get_mementos")
     cls = gm.fi.cls
     ck.need(cls is not None, "get_mementos is not a method")
-    reader_names = ("_read_memento",) if "_read_memento" in cls.methods else ("decode_memento",)
+    # (the private reader — or the decoder itself where the reader's body was written out in place)
+    reader_names = ("_read_memento", "decode_memento")
     catching = {"FunctionNotFoundError", "ValueError", "Exception", "BaseException"}
     fnf = ck.repo.classes_named("FunctionNotFoundError")
     if fnf:
@@ -558,8 +711,7 @@ def check_unresolvable_is_absent(ck, R3):
             p_ = fa.pm.get(n)
             if isinstance(p_, ast.Try) and any(fa.inside(call, b) for b in p_.body):
                 for h in p_.handlers:
-                    ts = [None] if h.type is None else (h.type.elts if isinstance(h.type, ast.Tuple) else [h.type])
-                    if any(t is None or A.norm(t).split(".")[-1] in catching for t in ts):
+                    if any(t is None or t in catching for t in _handler_types(fa, h)):
                         # (a handler that passes the exception on does not absorb it)
                         return not any(isinstance(st, ast.Raise) for st in h.body)
             n = p_
@@ -584,15 +736,90 @@ def check_unresolvable_is_absent(ck, R3):
               "FunctionNotFoundError escapes get_mementos: a stale entry makes every lookup of that call raise", fa.where(c))
 
 
+# ---- names that were stored are the names that are listed -----------------------------------------------------------
+FSDS = "storage_filesystem._FilesystemDataSource"
+_UNQUOTERS = ("unquote", "unquote_plus", "unquote_to_bytes")
+
+
+def _escape_pairs(ek: FA):
+    """[(character, what it is written as)] of the key escape: `key.replace(a, b)` (possibly chained) or
+    `b.join(key.split(a))`; None when the escape is written another way."""
+    pairs = []
+    for r in ek.returns():
+        if r.value is None or not ek.nodes(r):
+            return None
+        e = ek.expand(r.value, ek.nodes(r)[0])
+        while True:
+            if isinstance(e, ast.Call) and A.call_attr(e) == "replace" and isinstance(e.func, ast.Attribute) and len(e.args) == 2 \
+                    and all(A.const_str(a) is not None for a in e.args):
+                pairs.append((A.const_str(e.args[0]), A.const_str(e.args[1])))
+                e = e.func.value
+                continue
+            if isinstance(e, ast.Call) and A.call_attr(e) == "join" and isinstance(e.func, ast.Attribute) and A.const_str(e.func.value) is not None \
+                    and len(e.args) == 1 and isinstance(e.args[0], ast.Call) and A.call_attr(e.args[0]) == "split" and len(e.args[0].args) == 1 \
+                    and A.const_str(e.args[0].args[0]) is not None and isinstance(e.args[0].func, ast.Attribute):
+                pairs.append((A.const_str(e.args[0].args[0]), A.const_str(e.func.value)))
+                e = e.args[0].func.value
+                continue
+            break
+        if not isinstance(e, ast.Name):
+            return None
+    return pairs or None
+
+
+def check_listing_inverts_escape(ck, R):
+    """Keys are written under an escaped file name (':' is not allowed on every file system); the listing turns the
+    file names back into keys.  The escape writes percent codes, so the listing has to undo exactly percent codes:
+    `unquote`.  `unquote_plus` also turns '+' into a blank, which the escape never wrote — a version such as
+    1.4.0+build.7 would be listed under another name than it was stored under."""
+    from urllib.parse import unquote as _uq
+    ls = FA(ck, FSDS + ".list_keys_nonversioned")
+    ek = FA(ck, FSDS + "._escape_key")
+    pairs = _escape_pairs(ek)
+    if pairs is None:
+        raise AnalysisError("%s: the key escape is neither a chain of replace(<char>, <code>) nor <code>.join(key.split(<char>))" % ek.qual)
+    oke = any(a == ":" for a, b in pairs) and all(len(a) == 1 and b != a and _uq(b) == a for a, b in pairs)
+    decoders = set()
+    for fi in _listing_units(ck, ls):
+        if fi is ek.fi:
+            continue
+        for c in A.body_calls(fi.node):
+            nm = A.call_attr(c)
+            if isinstance(c.func, ast.Name):
+                origin = fi.module.imports.get(c.func.id, "")
+                if ":" in origin:
+                    nm = origin.split(":")[-1]
+            if nm in _UNQUOTERS:
+                decoders.add(nm)
+    ok_inv = oke and decoders == {"unquote"}
+    ck.ob(R, ek.key(None, "escape"), ok_inv, "':' is escaped as a percent code that the listing decodes with unquote (the exact inverse)" if ok_inv else
+          "key escaping %s is not inverted exactly by the listing (decoders used: %s): names containing '+' (versions like 1.4.0+build.7) come back altered"
+          % ([list(p_) for p_ in pairs], sorted(decoders) or "none"), ek.where())
+
+
 def _pattern_literal(pq, e, depth=0):
-    """The pattern text an expression denotes: a literal, a local / module-level / class-level constant holding one,
-    or re.compile(<one of those>)."""
-    if depth > 5 or e is None:
+    """The pattern text an expression denotes, as a Constant node: a literal, a local / module-level / class-level
+    constant holding one, pieces of those glued with '+' / an f-string, or re.compile(<one of those>)."""
+    if depth > 8 or e is None:
         return None
     if A.const_str(e) is not None:
         return e
     if isinstance(e, ast.Call) and A.call_dotted(e) == "re.compile" and e.args:
         return _pattern_literal(pq, e.args[0], depth + 1)
+    if isinstance(e, (ast.BinOp, ast.JoinedStr)):
+        parts = A.str_parts(e)
+        if parts is None:
+            return None
+        txt = ""
+        for (k, v) in parts:
+            if k == "lit":
+                txt += v
+            else:
+                lit = _pattern_literal(pq, v, depth + 1)
+                if lit is None:
+                    return None
+                txt += A.const_str(lit)
+        return ast.copy_location(ast.Constant(value=txt), e)
     if isinstance(e, ast.Name):
         if pq.df.is_local(e.id):
             ds = [d for i in pq.nodes(e) for d in pq.df.reaching(i, e.id)]
@@ -607,6 +834,40 @@ def _pattern_literal(pq, e, depth=0):
     return None
 
 
+def _compile_call(pq, e, depth=0):
+    """The re.compile(...) call a compiled-pattern expression goes back to (through a local / module / class constant)."""
+    if depth > 5 or e is None:
+        return None
+    if isinstance(e, ast.Call) and A.call_dotted(e) == "re.compile":
+        return e
+    if isinstance(e, ast.Name):
+        if pq.df.is_local(e.id):
+            ds = [d for i in pq.nodes(e) for d in pq.df.reaching(i, e.id)]
+            return _compile_call(pq, ds[0].value, depth + 1) if len(ds) == 1 and ds[0].kind == "assign" else None
+        return _compile_call(pq, pq.fi.module.assigns.get(e.id), depth + 1)
+    if isinstance(e, ast.Attribute) and isinstance(e.value, ast.Name) and pq.fi.cls is not None and e.value.id in ("cls", "self", pq.fi.cls.node.name):
+        for st in pq.fi.cls.node.body:
+            if isinstance(st, ast.Assign) and any(isinstance(t, ast.Name) and t.id == e.attr for t in st.targets):
+                return _compile_call(pq, st.value, depth + 1)
+    return None
+
+
+def _regex_flags(e) -> int:
+    """The value of a flags expression spelled with the re module's names (re.VERBOSE | re.X | ...); 0 for none."""
+    import re as _re
+    if e is None:
+        return 0
+    if isinstance(e, ast.Constant) and isinstance(e.value, int):
+        return int(e.value)
+    if isinstance(e, ast.BinOp) and isinstance(e.op, ast.BitOr):
+        return _regex_flags(e.left) | _regex_flags(e.right)
+    if isinstance(e, ast.Attribute) and isinstance(e.value, ast.Name) and e.value.id == "re" and isinstance(getattr(_re, e.attr, None), _re.RegexFlag):
+        return int(getattr(_re, e.attr))
+    if isinstance(e, ast.Name) and isinstance(getattr(_re, e.id, None), _re.RegexFlag):
+        return int(getattr(_re, e.id))
+    raise AnalysisError("qualified-name pattern: cannot tell which flags `%s` are" % A.short(e, 40))
+
+
 def check_parser(ck, R1):
     pq = FA(ck, FR + ".parse_qualified_name")
     # re.match(<pattern>, name) / re.fullmatch(...) / <compiled pattern>.match(name), the pattern being a literal or
@@ -615,18 +876,21 @@ def check_parser(ck, R1):
     for c in pq.calls("match") + pq.calls("fullmatch"):
         if A.call_dotted(c) in ("re.match", "re.fullmatch"):
             lit = _pattern_literal(pq, c.args[0]) if c.args else None
+            flags = c.args[2] if len(c.args) > 2 else A.kwarg(c, "flags")
         else:
             lit = _pattern_literal(pq, A.call_recv(c))
+            cc = _compile_call(pq, A.call_recv(c))
+            flags = (cc.args[1] if len(cc.args) > 1 else A.kwarg(cc, "flags")) if cc is not None else None
         if lit is not None:
-            found.append((c, lit))
+            found.append((c, lit, flags))
     if len(found) == 1:
-        c, lit = found[0]
+        c, lit, flags = found[0]
         direct = A.call_dotted(c) in ("re.match", "re.fullmatch")
         if direct and c.args[0] is lit:
-            return _regex_parser(ck, R1, pq, [c])
+            return _regex_parser(ck, R1, pq, [c], flags=_regex_flags(flags))
         pseudo = ast.Call(func=c.func, args=[lit] + list(c.args[1:] if direct else c.args), keywords=[])
         ast.copy_location(pseudo, c)
-        return _regex_parser(ck, R1, pq, [pseudo], anchor=c)
+        return _regex_parser(ck, R1, pq, [pseudo], anchor=c, flags=_regex_flags(flags))
     return _partition_parser(ck, R1, pq)
 
 
@@ -695,13 +959,17 @@ def check(ck):
             ok3 = not any(i in after for (st_, v_, aug_) in writes if st_ not in tails for i in mi.nodes(st_))
         ck.ob(R2, mi.key(None, "module-function"), ok3, "unversioned name = module%sfunction qualname" % d_module if ok3 else
               "the unversioned name is no longer module + %r + qualname" % d_module, mi.where())
-        rs = ck.repo.func("code_hash.resolve_to_symbolic_names").nested.get("resolve_to_symbol")
-        # (when the nested helper was inlined into its only caller, the cut is looked for there)
-        rfa = FA(ck, rs if rs is not None else ck.repo.func("code_hash.resolve_to_symbolic_names"))
-        # the versioned qualified name of a dependency is reduced to what precedes its FIRST version delimiter
-        firsts, lasts = _cut_calls(list(A.walk_body(rfa.node)), d_version)
-        on_name = [c for c in firsts if rfa.nodes(c) and "qualified_name" in {n.attr for (n, a_) in flow_nodes(rfa, c.func.value, rfa.nodes(c)[0]) if isinstance(n, ast.Attribute)}]
-        okc = bool(on_name) and not lasts and all(_prefix_before_first(rfa, c, d_version) for c in firsts)
+        # the versioned qualified name of a dependency is reduced to what precedes its FIRST version delimiter — in
+        # resolve_to_symbolic_names or whichever helper of it does the cut (nested, or hoisted to module level)
+        units = [FA(ck, fi_) for fi_ in _helper_units(ck, ck.repo.func("code_hash.resolve_to_symbolic_names"))]
+        cuts = [(f_, _cut_calls(list(A.walk_body(f_.node)), d_version)) for f_ in units]
+        with_cut = [f_ for (f_, (fs_, ls_)) in cuts if fs_ or ls_]
+        nested = [f_ for f_ in units if f_.fi.name == "resolve_to_symbol"]
+        rfa = with_cut[0] if with_cut else nested[0] if nested else units[0]
+        firsts = [(f_, c) for (f_, (fs_, ls_)) in cuts for c in fs_]
+        lasts = [c for (f_, (fs_, ls_)) in cuts for c in ls_]
+        on_name = [c for (f_, c) in firsts if f_.nodes(c) and "qualified_name" in {n.attr for (n, a_) in flow_nodes(f_, c.func.value, f_.nodes(c)[0]) if isinstance(n, ast.Attribute)}]
+        okc = bool(on_name) and not lasts and all(_prefix_before_first(f_, c, d_version) for (f_, c) in firsts)
         ck.ob(R2, rfa.key(None, "cut-first-hash"), okc, "the symbolic name is cut at the first %r" % d_version if okc else
               "the symbolic dependency name is not cut at the first %r (a version containing it would leak into the name)" % d_version, rfa.where())
         # what is stored as the name without its cluster prefix is cut at the FIRST cluster delimiter
@@ -730,8 +998,8 @@ def check(ck):
                   "prefix, so the cluster is dropped from an external reference and qualified_name_without_cluster is cut inside the version"
                   % (A.short(n, 50), d_cluster, d_cluster), ini.where(n))
 
-    from .c05 import check_escape_inverse, check_strip_is_not_prefix_removal
-    ck.run(check_escape_inverse, ck, R2)
+    from .c05 import check_strip_is_not_prefix_removal
+    ck.run(check_listing_inverts_escape, ck, R2)
     ck.run(check_strip_is_not_prefix_removal, ck, R2)
     ck.run(check_cluster_name_validated, ck, R2, shape)
     from .c11 import check_reference_resolved_afresh
@@ -762,12 +1030,34 @@ def check(ck):
         if isinstance(c.func, ast.Attribute) and A.norm(c.func.value) in ("FunctionReference", "cls", "self") and c.func.attr in frcls.methods \
                 and c.func.attr not in ("_find_function", "from_qualified_name"):
             lookup_fns.append(FA(ck, frcls.methods[c.func.attr]))
+    def raised_types(f, exc, depth=0):
+        """Names of the exception classes `raise <exc>` may raise: the class called / named on the spot, or what a
+        helper of this repository that builds the exception returns."""
+        if isinstance(exc, ast.Call):
+            try:
+                cands, how = ck.cg.resolve(exc, f.fi)
+            except Exception:  # noqa
+                cands, how = [], "unresolved"
+            if how in ("typed", "module", "nested") and len(cands) == 1 and depth < 3:
+                h = FA(ck, cands[0])
+                out = set()
+                for r_ in h.returns():
+                    if r_.value is not None:
+                        out |= raised_types(h, r_.value, depth + 1)
+                if out:
+                    return out
+            return {A.call_attr(exc)}
+        if isinstance(exc, (ast.Name, ast.Attribute)):
+            nm = A.norm(exc).split(".")[-1]
+            return {nm} if nm[:1].isupper() else set()
+        return set()
+
     for f in lookup_fns:
         for r in f.stmts(ast.Raise):
             if host_mode and f is ff and not in_region(r):
                 continue
-            if isinstance(r.exc, ast.Call):
-                may.add(A.call_attr(r.exc))
+            if r.exc is not None:
+                may |= raised_types(f, r.exc)
         for c in f.calls():
             nm = A.call_attr(c)
             if nm == "import_module":
@@ -836,14 +1126,13 @@ def check(ck):
         p = fq.pm.get(n)
         if isinstance(p, ast.Try) and any(fq.inside(fcall, b) for b in p.body):
             for h in p.handlers:
-                ts = h.type.elts if isinstance(h.type, ast.Tuple) else [h.type]
-                handlers += [A.norm(t) for t in ts if t is not None]
+                handlers += ["BaseException" if t is None else t for t in _handler_types(fq, h)]
         n = p
     sup = {"ModuleNotFoundError": {"ImportError", "Exception"}, "AttributeError": {"Exception"}, "ValueError": {"Exception"},
            "FunctionNotFoundError": {"ValueError", "Exception"}}
     for c_ in ck.repo.module("exception").all_classes():
         sup.setdefault(c_.name, set()).update({b.name for b in ck.repo.mro(c_)[1:]} | set(c_.base_exprs) | {"Exception"})
-    esc = [e for e in may if e not in handlers and not (sup.get(e, set()) & set(handlers))]
+    esc = [e for e in may if e not in handlers and not (sup.get(e, set()) & set(handlers)) and "BaseException" not in handlers]
     ck.ob(R3, fq.key(fcall, "lookup-failures-caught"), not esc and len(may) >= 3,
           "everything the lookup may raise (%s) falls back to an external reference" % sorted(may) if not esc else
           "%s raised while looking the function up escapes from_qualified_name: a removed / renamed dependency makes stored metadata unreadable" % sorted(esc), fq.where(fcall))
@@ -888,14 +1177,14 @@ def check(ck):
                 return NOTNONE
             return MAYBE
 
+        from .c11 import _bound_args
         ue = ck.repo.func("external.UnboundExternalMementoFunction.__init__")
         ue_params = [a.arg for a in ue.node.args.args if a.arg != "self"]
-        if any(isinstance(a_, ast.Starred) for a_ in call.args) or any(k.arg is None for k in call.keywords):
+        bound = _bound_args(fq, call, ue_params)
+        if bound is None:
             raise AnalysisError("from_qualified_name builds the external stub with */** arguments: bindings cannot be told")
-        for i_, a_ in enumerate(call.args[:len(ue_params)]):
-            binding[ue_params[i_]] = nullability(fq.expand(a_, at_call))
-        for k in call.keywords:
-            binding[k.arg] = nullability(fq.expand(k.value, at_call))
+        for p_, (v_, a_) in bound.items():
+            binding[p_] = nullability(fq.expand(v_, a_))
         env = {}
         defaults = ue.node.args.defaults
         params = [a.arg for a in ue.node.args.args]
@@ -917,10 +1206,14 @@ def check(ck):
             env2 = {"self": NOTNONE}
             fparams = [a.arg for a in fri.node.args.args]
             fdef = fri.node.args.defaults
+            uefa = FA(ck, ue)
+            fbound = _bound_args(uefa, frc[0], [p_ for p_ in fparams if p_ != "self"]) if uefa.nodes(frc[0]) else None
+            if fbound is None:
+                raise AnalysisError("UnboundExternalMementoFunction.__init__ builds its reference with */** arguments: bindings cannot be told")
             for i, p in enumerate(fparams):
                 if p == "self":
                     continue
-                kv = A.kwarg(frc[0], p)
+                kv = fbound[p][0] if p in fbound else None
                 if kv is not None:
                     if isinstance(kv, ast.Name):
                         env2[p] = env.get(kv.id, MAYBE)
@@ -979,17 +1272,26 @@ def check(ck):
                           "`raise` under `%s`: a stored entry that mentions a function which has since been edited or removed (an external reference) "
                           "can no longer be decoded, so the entry stops being served / listings raise" % A.short(g.test, 60), fx.where(r_))
     da = FA(ck, "serialization.MementoCodec.decode_arg")
-    rz = [r_ for r_ in da.stmts(ast.Raise) if isinstance(r_.exc, ast.Call) and A.call_attr(r_.exc) == "FunctionNotFoundError"]
+    # (the refusal may sit in decode_arg itself or in a helper it was moved into: a nested function, a method of the codec)
+    rz = []
+    for fi_ in _listing_units(ck, da):
+        if fi_ is not da.fi and fi_.name.startswith(("decode_", "encode_")) and fi_.cls is da.fi.cls and fi_.parent is None:
+            continue  # the codec's other public decoders are not part of decode_arg
+        fu = da if fi_ is da.fi else FA(ck, fi_)
+        rz += [(fu, r_) for r_ in fu.stmts(ast.Raise) if isinstance(r_.exc, ast.Call) and A.call_attr(r_.exc) == "FunctionNotFoundError" and fu.nodes(r_)]
     # the refusal is reached exactly when the freshly decoded reference has no function object: every path
     # condition of the raise says `<decoded reference>.memento_fn is None`, and says nothing else about the reference
     okd = len(rz) == 1
     if okd:
-        conds = da.conditions(rz[0])
+        fu, rz0 = rz[0]
+        conds = fu.conditions(rz0)
         if conds is None:
             raise AnalysisError("decode_arg: too many paths to the FunctionNotFoundError refusal")
+        import re as _re
+        _no_fn = _re.compile(r"^([A-Za-z_][A-Za-z_0-9]*\.)+decode_fn_reference\(.*\)\.memento_fn is None$")
 
         def no_fn(lit):
-            return lit[1] and lit[0].startswith("cls.decode_fn_reference(") and lit[0].endswith(").memento_fn is None")
+            return lit[1] and bool(_no_fn.match(lit[0]))
 
         okd = bool(conds) and all(any(no_fn(l_) for l_ in c_) and not any("decode_fn_reference(" in l_[0] and not no_fn(l_) for l_ in c_) for c_ in conds)
     ck.ob(R3, da.key(None, "function-argument-decoding"), okd, "a function-valued argument is refused only when no function object (not even a stub) exists" if okd else
